@@ -2476,15 +2476,16 @@ impl<'a> Visitor<'a> {
         let func = match self.env.get_fn(name, func_call.namespace)? {
             Some(func) => func,
             None => {
+                // `ns.f()` only names a member of that module, never a global function
+                if func_call.namespace.is_some() {
+                    return Err(("Undefined function.", func_call.span).into());
+                }
+
                 if let Some(f) = self.options.custom_fns.get(name.as_str()) {
                     SassFunction::Builtin(f.clone(), name)
                 } else if let Some(f) = GLOBAL_FUNCTIONS.get(name.as_str()) {
                     SassFunction::Builtin(f.clone(), name)
                 } else {
-                    if func_call.namespace.is_some() {
-                        return Err(("Undefined function.", func_call.span).into());
-                    }
-
                     SassFunction::Plain { name }
                 }
             }
